@@ -69,7 +69,7 @@ claim("C13", U + "Bare Atom[c1,c2] (what a flag-q pattern compiles to): is_match
       "substitution step appends the replacement verbatim under q for all texts incl. $ and backslash, never rejecting; q accepted "
       "only in the XPath dialect. tokenize/analyze/replace_all as whole calls are outside.", "DESIGN.md 4 C13")
 claim("C14", "The whitespace-stripping block of ReCompiler::compile, extracted verbatim from the current source on every run, on EVERY "
-      "pattern text <=6 chars (11 thorough) over all scalar values without an unmatched ']': output = input minus TAB/LF/CR/SP at "
+      "pattern text <=8 chars (11 thorough) over all scalar values without an unmatched ']': output = input minus TAB/LF/CR/SP at "
       "class depth 0 of the stripped text; whitespace inside classes kept; nothing else removed. That the stripped text is then "
       "compiled like the original is outside.", "DESIGN.md 4 C14")
 claim("C15", "The per-match substitution step of ReMatcher::replace (latch + expansion + verbatim branch), extracted verbatim on every "
